@@ -393,6 +393,9 @@ def _is_mutable_value(v):
     return False
 
 
+MEMO_DECORATORS = ('lru_cache', 'cache', 'cached_property', 'memoize', 'memoized', 'memoise')
+
+
 def shared_state_frame(repo, files, tag='state'):
     """Frame obligation "no state is shared between objects or between calls": per class, no class-level attribute holds a mutable value
     (such a value is shared by every instance); per module, no function rebinds (global statement) or updates in place a module-level
@@ -476,6 +479,19 @@ def shared_state_frame(repo, files, tag='state'):
             for n in ast.walk(fn):
                 if isinstance(n, ast.Global):
                     globs.update(n.names)
+            # a memo table kept by a decorator is state that outlives the call: harmless on a pure function, but the answer of an earlier call
+            # survives a change of whatever the body reads from outside its arguments (files, directories, the clock, the object)
+            memo = [ast.unparse(d) for d in fn.decorator_list
+                    if ast.unparse(d.func if isinstance(d, ast.Call) else d).split('.')[-1] in MEMO_DECORATORS]
+            if memo:
+                reads = sorted({ast.unparse(c.func) for c in ast.walk(fn) if isinstance(c, ast.Call)
+                                and (ast.unparse(c.func) in ('open', 'codecs.open', 'input')
+                                     or ast.unparse(c.func).split('.')[0] in ('os', 'time', 'random', 'glob', 'shutil', 'pathlib'))}
+                               | {'self.' + a.attr for a in ast.walk(fn) if isinstance(a, ast.Attribute) and isinstance(a.value, ast.Name)
+                                  and a.value.id == 'self'})
+                if reads:
+                    bad.append((fn.lineno, '%s(): memoised by @%s but reads %s; a later call with the same arguments returns the earlier answer'
+                                % (fn.name, memo[0], ', '.join(reads[:6]))))
             for n in ast.walk(fn):
                 if isinstance(n, ast.Global):
                     bad.append((n.lineno, '%s(): global %s' % (fn.name, ', '.join(n.names))))
